@@ -432,6 +432,34 @@ Record ch_model (F : Type) : Type := mk_ch_model { cm_clusters : list (ch_cluste
 Arguments mk_ch_model {F} _.
 Arguments cm_clusters {F} _.
 
+(* ---- object state of containers/model_state.py (the fields the translated methods touch); field stores are functional ---- *)
+(* sorted(l) on a list of ints: insertion sort (stable; the order of equal ints is not observable) *)
+Fixpoint py_insert (x : Z) (l : list Z) : list Z :=
+  match l with
+  | [] => [x]
+  | y :: r => if x <=? y then x :: y :: r else y :: py_insert x r
+  end.
+Definition py_sorted (l : list Z) : list Z := fold_right py_insert [] l.
+(* l1 == l2 on lists of ints *)
+Fixpoint py_list_eqb (a b : list Z) : bool :=
+  match a, b with
+  | [], [] => true
+  | x :: a', y :: b' => (x =? y) && py_list_eqb a' b'
+  | _, _ => false
+  end.
+(* collections.defaultdict(list) with integer keys *)
+Definition py_ddict_get {V : Type} (d : list (Z * list V)) (k : Z) : list V :=
+  match find (fun kv => fst kv =? k) d with Some kv => snd kv | None => [] end.
+Definition py_ddict_append {V : Type} (d : list (Z * list V)) (k : Z) (v : V) : list (Z * list V) :=
+  (k, (py_ddict_get d k ++ [v])%list) :: filter (fun kv => negb (fst kv =? k)) d.
+
+Record ms_cluster : Type := mk_ms_cluster { mc__member_points : list Z }.
+Definition set_mc__member_points (c : ms_cluster) (v : list Z) : ms_cluster := mk_ms_cluster v.
+Record ms_args : Type := mk_ms_args { ma_num_clusters : Z }.
+Record ms_state : Type := mk_ms_state { ms__point_labels : list Z; ms_clusters : list ms_cluster; ms_arguments : ms_args }.
+Definition set_ms__point_labels (s : ms_state) (v : list Z) : ms_state := mk_ms_state v (ms_clusters s) (ms_arguments s).
+Definition set_ms_clusters (s : ms_state) (v : list ms_cluster) : ms_state := mk_ms_state (ms__point_labels s) v (ms_arguments s).
+
 (* ---- facts used by every equivalence proof ---- *)
 Lemma bind_ret {A B : Type} (a : A) (f : A -> res B) : bind (Ret a) f = f a.
 Proof. reflexivity. Qed.
